@@ -504,3 +504,26 @@ func tokenize(s string) []string {
 	flush()
 	return toks
 }
+
+
+// CrossCheck re-decides (current stack AND extra) on another solver process from scratch: the second process is reset,
+// given every declaration and every asserted formula of this one, then extra. Used to diff two solver
+// implementations on the very queries whose `unsat` verdict a claim rests on.
+func (s *Solver) CrossCheck(other *Solver, extra *Term) string {
+	s.declare(extra)
+	other.send("(reset)")
+	other.send("(set-option :produce-models true)")
+	if strings.HasPrefix(other.kind, "cvc5") {
+		other.send("(set-logic ALL)")
+	}
+	for _, d := range s.decls {
+		other.send(d)
+	}
+	for _, lvl := range s.stack {
+		for _, a := range lvl {
+			other.send("(assert " + a + ")")
+		}
+	}
+	other.send("(assert " + extra.SMT() + ")")
+	return other.Check()
+}
